@@ -188,7 +188,11 @@ Definition is_h (g : graph) (k : Z) : bool :=
 Definition bond_in (bs : list (Z * Z * Z)) (a b o : Z) : bool :=
   existsb (fun x => let '(p, q, r) := x in Z.eqb r o && ((Z.eqb p a && Z.eqb q b) || (Z.eqb p b && Z.eqb q a))) bs.
 Definition order_z (d : attrs) : Z :=
-  match aget (S "order") d with Some (VInt z) => z | Some (VFlt r) => if str_eqb r (S "2.0") then 2 else -1 | _ => -1 end.
+  match aget (S "order") d with
+  | Some (VInt z) => z
+  | Some (VFlt r) => if str_eqb r (S "2.0") then 2 else if str_eqb r (S "1.5") then -1 else -2    (* aromatic: -1 *)
+  | _ => -2
+  end.
 
 (** the harness' identification IS an isomorphism of the returned molecule's recognisable atoms onto the
     written molecule (elements, bonds, orders); the generator makes that isomorphism unique.  Recognisable =
